@@ -112,6 +112,18 @@ theorem drain_fwd (k : Nat) : ∀ (σ : Uni) (fl : List Bool), Inv σ → σ.fwd
 
 /-! ### the responses -/
 
+/-- no response the receiver can have produced is refused: the sender's step on the
+    head of the backward channel is enabled, sets `B` to the value it carried -/
+theorem bwdDeliver_enabled (σ : Uni) (h : Inv σ) (r : RespW) (rest : List RespW) (hb : σ.bwd = r :: rest) :
+    ∃ q', σ.step? .bwdDeliver = some (respSt σ q' rest r.val) := by
+  have hro : RespOk σ r := h.bwd_ok r (by simp [hb])
+  cases hk : r.kind with
+  | ack =>
+    have ha := hro.ack_seq hk
+    obtain ⟨b, hp⟩ := processACK_spec h r.seq r.val ha.1 hro.lo hro.hi ha.2
+    exact ⟨{ σ.q with base := r.val % σ.q.s }, by simp [Uni.step?, hb, hk, hp, respSt]⟩
+  | nack => exact ⟨(σ.q.processNACK r.seq).1, by simp [Uni.step?, hb, hk, respSt]⟩
+
 /-- **every response in flight can be processed by the sender** (no ACK or NACK
     the receiver can have produced is refused by `processACK`), and afterwards
     the sender's cumulative counter is the value the last of them carried -/
@@ -129,15 +141,7 @@ theorem drain_bwd (m : Nat) : ∀ (σ : Uni), Inv σ → σ.bwd.length = m →
     | [] => simp [hb] at hm
     | r :: rest =>
       have hlen : rest.length = m := by simpa [hb] using hm
-      have hro : RespOk σ r := h.bwd_ok r (by simp [hb])
-      -- the step is enabled in both cases, and sets B := r.val, bwd := rest
-      have hstep : ∃ q', σ.step? .bwdDeliver = some (respSt σ q' rest r.val) := by
-        cases hk : r.kind with
-        | ack =>
-          have ha := hro.ack_seq hk
-          obtain ⟨b, hp⟩ := processACK_spec h r.seq r.val ha.1 hro.lo hro.hi ha.2
-          exact ⟨{ σ.q with base := r.val % σ.q.s }, by simp [Uni.step?, hb, hk, hp, respSt]⟩
-        | nack => exact ⟨(σ.q.processNACK r.seq).1, by simp [Uni.step?, hb, hk, respSt]⟩
+      have hstep := bwdDeliver_enabled σ h r rest hb
       obtain ⟨q', hs⟩ := hstep
       obtain ⟨σ', hr, h1, h2, h3, h4, h5, h6, h7, h8⟩ := ih _ (inv_step h _ hs) hlen
       refine ⟨σ', by simp only [List.replicate_succ, Uni.run?, hs]; exact hr, h1, ?_, h3, h4, h5, h6, h7, h8⟩
